@@ -362,13 +362,14 @@ class Check:
             for s in range(16):
                 specs.append({"name": f"rand-{seed * 1000 + s}", "kind": "rand", "seed": seed * 1000 + s, "n": 40, "len": 40})
         else:
+            # sized to finish in about half an hour on 16 cores: 17^4 = 83.5k sequences over the full alphabet, 10^6 over the reduced one
             for first in range(n):
                 for second in range(n):
-                    specs.append({"name": f"exh5-{first}-{second}", "kind": "exh", "depth": 5, "first": first, "second": second,
+                    specs.append({"name": f"exh4-{first}-{second}", "kind": "exh", "depth": 4, "first": first, "second": second,
                                   "alpha": list(range(n))})
             for first in REDUCED:
                 for second in REDUCED:
-                    specs.append({"name": f"exh7r-{first}-{second}", "kind": "exh", "depth": 7, "first": first, "second": second,
+                    specs.append({"name": f"exh6r-{first}-{second}", "kind": "exh", "depth": 6, "first": first, "second": second,
                                   "alpha": REDUCED})
             for s in range(64):
                 specs.append({"name": f"rand-{seed * 1000 + s}", "kind": "rand", "seed": seed * 1000 + s, "n": 150, "len": 60})
